@@ -16,7 +16,7 @@ TIERS = {
 FAULT_KINDS = ["raising event callback", "invalid frames interleaved", "raising publish callback"]
 REAL, STUBS, ASSUMPTIONS = netcheck.REAL, netcheck.STUBS, netcheck.ASSUMPTIONS
 REQUIRED_PROBES = ["accepted_lines", "rejected_lines"]
-WEIGHTS = {"present_node": 10, "present_child": 14, "value": 18, "battery": 5, "sketch": 5, "heartbeat": 4, "unknown_traffic": 6,
+WEIGHTS = {"present_node": 10, "present_child": 14, "value": 18, "battery": 5, "sketch": 5, "heartbeat": 5, "presleep": 5, "unknown_traffic": 6,
            "invalid_frame": 3, "garbage": 1, "stream_bad": 0, "ctl_fw": 1, "idreq": 4, "adopt": 2}
 FLAVOURS = ["serial", "tcp", "aserial", "atcp", "mqtt", "amqtt"]
 
@@ -28,7 +28,7 @@ def gen(rng, tier, index):
     if cfg["flavour"] in ("mqtt", "amqtt"):
         cfg["in_prefix"] = rng.choice(["", "gw-out"])
         cfg["out_prefix"] = rng.choice(["", "gw-in"])
-    ops = netgen.make_ops(rng, cfg["version"], rng.randint(10, 60 if tier == "thorough" else 45), WEIGHTS, nodes=(1, 4))
+    ops = netgen.make_ops(rng, cfg["version"], rng.randint(10, 60 if tier == "thorough" else 45), WEIGHTS, nodes=(1, 4), scenario=0.15)
     return {"cfg": cfg, "ops": ops}
 
 
